@@ -3,6 +3,7 @@
    -> for each entity   id|bases|gen_ctor|p21_ctor   (attributes as owner.index), separated by " ; " *)
 open Conv
 open PyGen
+open CxxAttrs
 
 let () =
   try
@@ -22,6 +23,6 @@ let () =
       let show_attrs l = String.concat "," (Stdlib.List.map (fun a -> string_of_int (int_of_n a.a_owner) ^ "." ^ string_of_int (int_of_n a.a_index)) l) in
       let show_ids l = String.concat "," (Stdlib.List.map (fun i -> string_of_int (int_of_n i)) l) in
       print_string (String.concat " ; " (Stdlib.List.map (fun e ->
-          string_of_int (int_of_n e.e_id) ^ "|" ^ show_ids (gen_bases ents e) ^ "|" ^ show_attrs (gen_ctor fuel ents e) ^ "|" ^ show_attrs (p21_ctor fuel ents e)) ents) ^ "\n")
+          string_of_int (int_of_n e.e_id) ^ "|" ^ show_ids (gen_bases ents e) ^ "|" ^ show_attrs (gen_ctor fuel ents e) ^ "|" ^ show_attrs (p21_ctor fuel ents e) ^ "|" ^ show_attrs (cxx_order fuel ents e)) ents) ^ "\n")
     done
   with End_of_file -> ()
